@@ -171,6 +171,49 @@ func registerTime(e *Engine) {
 		}
 		return c.Return(Float{Tag: "secs(" + d.SMT() + ")"})
 	}
+	// time.Timer: a channel of capacity 1 that the environment fills when the timer fires
+	// (at a quiescent point, or earlier by spending a scheduling delay); firing order between
+	// armed timers is unrestricted (durations are order-only, DESIGN 3.3)
+	newTimer := func(c *Call, dur *Term) Ptr {
+		tt := c.E.Prog.ImportedPackage("time").Type("Timer").Type()
+		z := Zero(tt).(*Struct)
+		nf := append([]Value(nil), z.F...)
+		et := tt.Underlying().(*types.Struct).Field(0).Type().Underlying().(*types.Chan).Elem()
+		chID := c.St.Alloc(&ChanObj{Cap: 1, ET: et})
+		nf[0] = ChanRef{Obj: chID}
+		id := c.St.Alloc(&Struct{F: nf})
+		c.St.Timers = append(c.St.Timers, Timer{ID: len(c.St.Timers), Chan: chID, Armed: true, Order: len(c.St.Timers), Dur: dur, Kind: "timer"})
+		c.St.Ghost[fmt.Sprintf("timerobj:%d", id)] = BVC(uint64(len(c.St.Timers)-1), 64)
+		return Ptr{Obj: id}
+	}
+	timerIdx := func(c *Call) int {
+		v, ok := c.St.Ghost[fmt.Sprintf("timerobj:%d", c.Args[0].(Ptr).Obj)]
+		if !ok {
+			panic(unsupported("method on a time.Timer without model"))
+		}
+		return int(v.(*Term).U)
+	}
+	e.Intr["time.NewTimer"] = func(c *Call) []*State { return c.Return(newTimer(c, c.argTerm(0))) }
+	e.Intr["time.After"] = func(c *Call) []*State {
+		p := newTimer(c, c.argTerm(0))
+		return c.Return(c.St.Load(p).(*Struct).F[0])
+	}
+	e.Intr["(*time.Timer).Stop"] = func(c *Call) []*State {
+		i := timerIdx(c)
+		t := c.St.Timers[i]
+		was := t.Armed && !t.Fired
+		t.Armed = false
+		c.St.Timers[i] = t
+		return c.Return(BoolC(was))
+	}
+	e.Intr["(*time.Timer).Reset"] = func(c *Call) []*State {
+		i := timerIdx(c)
+		t := c.St.Timers[i]
+		was := t.Armed && !t.Fired
+		t.Armed, t.Fired, t.Dur = true, false, c.argTerm(1)
+		c.St.Timers[i] = t
+		return c.Return(BoolC(was))
+	}
 	e.Intr["time.Sleep"] = func(c *Call) []*State {
 		// a scheduling point: other threads run; polling loops are stutter-reduced
 		if len(c.St.Threads) < 2 {
